@@ -123,3 +123,51 @@ def inline_expr(prog, f, n, depth=0, env=None, defs=None, ptrs=False):
     if "args" in n:
         out["args"] = [inline_expr(prog, f, a, depth + 1, env, defs, ptrs) for a in n["args"]]
     return out
+
+
+def reaching_def(f, pos, varid):
+    """The unique definition (rhs expression) of local `varid` that reaches
+    position pos=(block, idx), or None if there are several / none."""
+    bid, idx = pos
+    found = []
+    seen = set()
+    st = [(bid, idx)]
+    preds = f.preds()
+    while st:
+        b, i = st.pop()
+        blk = f.blocks[b]
+        hit = False
+        for j in range(min(i, len(blk.stmts)) - 1, -1, -1):
+            for lv, op, rhs, w in ir.writes_of(blk.stmts[j]):
+                if lv.get("k") == "var" and lv["id"] == varid:
+                    found.append(rhs if op == "=" else None)
+                    hit = True
+            if hit:
+                break
+        if hit:
+            continue
+        for p in preds.get(b, []):
+            if p not in seen:
+                seen.add(p)
+                st.append((p, len(f.blocks[p].stmts)))
+    if len(found) == 1 and found[0] is not None:
+        return found[0]
+    return None
+
+
+def resolve_at(prog, f, pos, n, depth=0):
+    """Replace local variables in n by their unique reaching definition at pos."""
+    if not isinstance(n, dict) or depth > 6:
+        return n
+    if n.get("k") == "var" and "p" not in n and not n.get("r"):
+        d = reaching_def(f, pos, n["id"])
+        if d is not None:
+            return resolve_at(prog, f, pos, d, depth + 1)
+        return n
+    out = dict(n)
+    for key in ("l", "r", "e", "b", "i", "c", "t", "f"):
+        if isinstance(n.get(key), dict):
+            out[key] = resolve_at(prog, f, pos, n[key], depth + 1)
+    if "args" in n:
+        out["args"] = [resolve_at(prog, f, pos, a, depth + 1) for a in n["args"]]
+    return out
